@@ -29,24 +29,35 @@ EXTENDS Integers, Sequences, FiniteSets, TLC, MatrixBase
 \* Input classes
 \* ------------------------------------------------------------------------
 \* strings offered where an identifier is expected; the sigil is that of the field
-IdStringsCore == {"empty", "nosigil", "sigil_only", "sigil_colon", "nodomain", "baddomain_space", "long300", "long_mb"}
+IdStringsCore == {"empty", "nosigil", "sigil_only", "sigil_colon", "nodomain", "baddomain_space", "long300", "long_mb",
+                  "upper_valid", "escaped_valid"}   \* the last two: the well-formed value in another letter case / spelled with \u escapes
 IdStringsMore == {"wrongsigil", "colon_only", "opaque43", "opaque43_domain", "empty_domain", "baddomain_slash", "badport",
                   "ipv6_unclosed", "ipv6_bad", "nul", "nonascii", "upper", "other", "base64key", "short_b64"}
 IdStrings == IdStringsCore \cup IdStringsMore
 \* a JSON value of another type where a string / object / number is expected
 WrongTypes == {"missing", "null", "true", "number", "string", "array", "empty_obj", "object"}
-Numbers == {"zero", "negative", "float", "int_max", "int_min", "int_2p53", "int_n2p53", "int64_max", "int64_over",
-            "bigint", "bigfloat", "negzero", "exp", "string_num", "string_sp", "string_big"}
+Numbers == {"zero", "negative", "float", "int_max", "int_min", "int_2p53", "int_2p53p1", "int_n2p53", "int64_max", "int64_over",
+            "int64_min", "int64_under", "uint64_max", "bigint", "bigfloat", "negzero", "exp", "exp_upper", "exp_neg",
+            "plus", "leading_zero", "string_num", "string_sp", "string_big"}
+NumbersCore == {"zero", "int_max", "int_min", "int_2p53", "int64_max", "int64_over", "int64_min", "float", "string_num"}
+\* spellings that are not JSON at all
+NotJSON == {"plus", "leading_zero"}
 \* numbers that canonical JSON (room version 6 and later) forbids anywhere in an event
-NonCanonical == {"float", "int_2p53", "int_n2p53", "int64_max", "int64_over", "bigint", "bigfloat", "negzero", "exp"}
+NonCanonical == {"float", "int_2p53", "int_2p53p1", "int_n2p53", "int64_max", "int64_over", "int64_min", "int64_under", "uint64_max",
+                 "bigint", "bigfloat", "negzero", "exp", "exp_upper", "exp_neg"}
 Blobs == {"empty_str", "empty_arr", "arr_number", "arr_null", "arr_obj", "garbage", "esckey", "deep", "deep_obj",
           "badutf8", "nulstr", "lone_surrogate", "long_str"}
 Values == WrongTypes \cup Numbers \cup Blobs
 ValuesCore == {"missing", "null", "string", "array", "number", "int_max", "int_min", "int_2p53", "empty_obj", "garbage"}
-RefShapes == {"empty", "other_format", "unknown", "dup", "self", "cycle", "many", "tuple_empty", "tuple_short", "tuple_long", "tuple_badhash",
+RefShapes == {"empty", "other_format", "unknown", "dup", "self", "cycle", "many", "many_1000", "tuple_empty", "tuple_short", "tuple_long", "tuple_badhash",
               "tuple_nonstr", "elem_empty", "elem_sigil", "missing", "null", "string", "number", "object",
               "arr_number", "arr_null", "arr_obj"}
 KeyShapes == {"pk_short", "pk_len33", "pk_empty", "pk_badb64", "pk_number", "pk_missing"}
+\* signatures objects with several entries (two key IDs, two servers, a usable next to an unusable one, other base64 spellings)
+SigShapes == {"sig_two_keys", "sig_two_servers", "sig_good_and_short", "sig_padded", "sig_urlsafe"}
+\* a sender "key" of another length, with a 64 byte signature made under that name (room versions with pseudo IDs)
+PseudoKeys == {"key0", "key2", "key31", "key33", "key64", "keyvalid"}
+Spellings == {"pretty", "reversed", "escaped_keys", "escaped_strings"}
 
 Lit(S) == {"v:" \o s : s \in S}
 
@@ -64,11 +75,19 @@ TopFields(v) ==
      F("top/prev_events", "refs", "prev"), F("top/auth_events", "refs", "auth"),
      F("top/depth", "int", "depth"), F("top/origin_server_ts", "int", "ts"),
      F("top/hashes", "json", "hashes"), F("top/hashes/sha256", "hash", "hashes"),
-     F("top/signatures", "json", "signatures"), F("top/signatures/*key", "server", "signatures"),
+     F("top/signatures", "sigs", "signatures"), F("top/signatures/*key", "server", "signatures"),
+     F("top/sender", "pseudokey", "sender"), F("top/x_unknown", "json", "unknown"), F("content/x_unknown", "json", "content"),
+     F("spelling", "spelling", "spelling"),
      F("top/unsigned", "json", "unsigned"),
      F("top/sticky", "json", "sticky"), F("top/sticky/duration_ms", "int", "sticky"),
      F("top/msc4354_sticky/duration_ms", "int", "sticky"),
-     F("top/event_id", "event", "event_id")}
+     F("top/event_id", "eventid", "event_id")}
+
+\* a top level key written twice, the extra occurrence first / last (decoders differ in which one they take)
+DupFields ==
+    UNION {{F(pos \o "/room_id", "room", "room_id"), F(pos \o "/sender", "user", "sender"), F(pos \o "/state_key", "user", "state_key"),
+            F(pos \o "/type", "str", "type"), F(pos \o "/content", "json", "content"), F(pos \o "/depth", "int", "depth"),
+            F(pos \o "/event_id", "eventid", "event_id")} : pos \in {"dupfirst", "duplast"}}
 
 ContentFields(t) ==
     CASE t = "create" ->
@@ -85,14 +104,15 @@ ContentFields(t) ==
             F("content/third_party_invite/signed", "json", "content"),
             F("content/third_party_invite/signed/mxid", "user", "content"),
             F("content/third_party_invite/signed/token", "token", "content"),
-            F("content/third_party_invite/signed/signatures", "json", "content"),
+            F("content/third_party_invite/signed/signatures", "sigs", "content"),
             F("content/third_party_invite/signed/signatures/*key", "server", "content")}
       [] t = "power_levels" ->
            {F("content/ban", "int", "content"), F("content/invite", "int", "content"),
             F("content/users_default", "int", "content"), F("content/state_default", "int", "content"),
             F("content/users", "json", "content"), F("content/users/*key", "userkey", "content"),
             F("content/users/$alice", "int", "content"), F("content/events", "json", "content"),
-            F("content/events/m.room.name", "int", "content"), F("content/notifications", "json", "content"),
+            F("content/events/m.room.name", "int", "content"), F("content/events/m.room.third_party_invite", "int", "content"),
+            F("content/notifications", "json", "content"),
             F("content/notifications/room", "int", "content")}
       [] t = "join_rules" ->
            {F("content/join_rule", "join_rule", "content"), F("content/allow", "json", "content"),
@@ -105,31 +125,53 @@ ContentFields(t) ==
       [] t = "history_visibility" -> {F("content/history_visibility", "hv", "content")}
       [] OTHER -> {F("content/body", "json", "content"), F("content/m.relates_to", "json", "content")}
 
-Fields(v, t) == TopFields(v) \cup ContentFields(t)
+Fields(v, t) == TopFields(v) \cup ContentFields(t) \cup DupFields
 
 \* classes of a field by its kind; depth "core" keeps the classes named in the property's discussion,
 \* "full" is everything, "extra" = full minus core
+\* depth "edge": the few members of each kind at which behaviour changes (used for the all-versions family)
+ClassesEdge(kind) ==
+    CASE kind \in {"room", "user", "event"} -> {"empty", "sigil_colon", "missing"}
+      [] kind = "eventid" -> {"empty", "collide"}
+      [] kind \in {"server", "userkey"} -> {"empty", "short_b64"}
+      [] kind = "json" -> {"null", "array"}
+      [] kind = "sigs" -> {"sig_good_and_short", "sig_two_keys"}
+      [] kind = "int" -> {"zero", "int_2p53", "int64_over", "int64_min"}
+      [] kind = "refs" -> {"empty", "dup", "self"}
+      [] kind \in {"str", "hash", "rv", "hv", "token"} -> {"missing", "empty_str"}
+      \* every membership / join rule that a version-specific rule exists for
+      [] kind = "membership" -> {"missing", "empty_str"} \cup Lit({"knock", "invite", "leave", "ban"})
+      [] kind = "join_rule" -> {"missing", "empty_str"} \cup Lit({"knock", "restricted", "knock_restricted", "public"})
+      [] kind = "pubkey" -> {"pk_short", "pk_empty"}
+      [] kind = "pseudokey" -> {"key0", "key31", "key64", "keyvalid"}
+      [] kind = "spelling" -> {"pretty", "escaped_strings"}
+
 ClassesFor(kind, depth) ==
     LET ids == IF depth = "core" THEN IdStringsCore ELSE IdStrings
         vals == IF depth = "core" THEN ValuesCore ELSE Values
-        nums == IF depth = "core" THEN {"int_max", "int_min", "int_2p53", "float", "string_num"} ELSE Numbers
+        nums == IF depth = "core" THEN NumbersCore ELSE Numbers
     IN CASE kind \in {"room", "user", "event"} -> ids \cup (WrongTypes \ {"string"})
+         [] kind = "eventid" -> ids \cup (WrongTypes \ {"string"}) \cup {"collide"}
          [] kind \in {"server", "userkey"} -> ids
          [] kind = "json" -> vals
+         [] kind = "sigs" -> vals \cup SigShapes
+         [] kind = "pseudokey" -> PseudoKeys
+         [] kind = "spelling" -> Spellings
          [] kind = "int" -> nums \cup WrongTypes
-         [] kind = "refs" -> IF depth = "core" THEN {"empty", "other_format", "missing", "null", "string", "self", "cycle", "unknown"} ELSE RefShapes
+         [] kind = "refs" -> IF depth = "core" THEN {"empty", "other_format", "missing", "null", "string", "self", "cycle", "unknown", "dup", "many"} ELSE RefShapes
          [] kind = "str" -> {"missing", "null", "number", "array", "empty_str", "long_str", "nulstr"}
          [] kind = "hash" -> {"missing", "null", "number", "empty_str", "string", "badutf8"}
          [] kind = "rv" -> {"missing", "null", "number", "array"} \cup Lit({"1", "12", "bogus", ""})
          [] kind = "membership" -> {"missing", "null", "number", "array", "object", "empty_str"}
                                      \cup Lit({"join", "invite", "leave", "ban", "knock", "bogus"})
-         [] kind = "join_rule" -> {"missing", "null", "number", "array"}
+         [] kind = "join_rule" -> {"missing", "null", "number", "array", "empty_str"}
                                      \cup Lit({"public", "invite", "knock", "restricted", "knock_restricted", "private", "bogus"})
-         [] kind = "hv" -> {"missing", "null", "number", "array"} \cup Lit({"shared", "world_readable", "bogus"})
+         [] kind = "hv" -> {"missing", "null", "number", "array", "empty_str"} \cup Lit({"shared", "world_readable", "bogus"})
          [] kind = "token" -> {"missing", "null", "number", "empty_str"} \cup Lit({"other"})
          [] kind = "pubkey" -> KeyShapes \cup {"null", "number", "string", "empty_obj"}
 
 ClassesOf(kind, depth) == IF depth = "extra" THEN ClassesFor(kind, "full") \ ClassesFor(kind, "core")
+                          ELSE IF depth = "edge" THEN ClassesEdge(kind)
                           ELSE ClassesFor(kind, depth)
 
 NoFault == [path |-> "none", kind |-> "none", grp |-> "none", cls |-> "none"]
@@ -154,6 +196,7 @@ ParseVerdict(v, f1, f2) ==
             \/ f.kind = "refs" /\ f.cls \in {"missing", "null"} /\ EventFormat(v) = 2
                  /\ (f.path = "top/prev_events" \/ ~DomainlessRoomIDs(v))
             \/ EnforcedCanonJSON(v) /\ f.cls \in NonCanonical /\ f.grp # "unsigned"
+            \/ f.cls \in NotJSON /\ f.grp # "unsigned"
     IN IF f1 = NoFault /\ f2 = NoFault THEN "must"
        ELSE IF bad(f1) \/ (f2 # NoFault /\ bad(f2)) THEN "mustnot" ELSE "may"
 
@@ -171,7 +214,7 @@ Mutators == {"Redact", "Sign", "SetUnsigned", "SetUnsignedField", "Reload", "Hea
 MutatorsWithError == {"SetUnsigned", "SetUnsignedField", "Reload", "Headered"}
 
 AllGroups == {"room_id", "sender", "state_key", "event_id", "redacts", "type", "content", "prev", "auth", "depth", "ts",
-              "hashes", "signatures", "unsigned", "sticky"}
+              "hashes", "signatures", "unsigned", "sticky", "unknown", "spelling"}
 \* the groups of fields an accessor / helper reads (relevance: a fault elsewhere cannot matter to it)
 Reads(a) ==
     CASE a \in {"EventID", "JSON", "ToHeaderedJSON", "MarshalJSON", "Redacted", "CheckFields", "EventJSONs", "StrippedState"} -> AllGroups
@@ -193,6 +236,12 @@ Reads(a) ==
       [] a \in {"IsSticky", "StickyEndTime"} -> {"sticky", "ts"}
       [] OTHER -> {}
 
+\* role "dup": every event (the subject too) is listed twice in the state sets, the auth events and the bodies;
+\* role "bare": the state sets hold nothing the checks need - create, power levels and members are reachable only
+\* through the auth events each event cites, some events omit one of them, and ONE checker judges them in turn
+ResolveDup == {"Resolve:new:dup", "Resolve:old:dup", "Resolve:direct:dup", "Resolve:topo_auth:dup", "Resolve:linearise:dup",
+               "Resolve:checkstate:dup", "Resolve:sendjoin:dup", "Resolve:load:dup"}
+ResolveBare == {"Resolve:new:bare", "Resolve:old:bare", "Resolve:direct:bare"}
 ResolveOps ==
     {"Resolve:new:state", "Resolve:new:auth", "Resolve:new:both",
      "Resolve:old:state", "Resolve:old:auth", "Resolve:old:both",
@@ -200,18 +249,34 @@ ResolveOps ==
      "Resolve:topo_auth:all", "Resolve:topo_prev:all", "Resolve:topo_headered:all",
      "Resolve:linearise:state", "Resolve:linearise:auth", "Resolve:checkstate:state", "Resolve:checkstate:auth",
      "Resolve:sendjoin:state", "Resolve:sendjoin:auth", "Resolve:load:all", "Resolve:authchain:all"}
+      \cup ResolveDup \cup ResolveBare
 ResolveWithError == {"Resolve:new:state", "Resolve:new:auth", "Resolve:new:both", "Resolve:old:state", "Resolve:old:auth",
                      "Resolve:old:both", "Resolve:checkstate:state", "Resolve:checkstate:auth", "Resolve:sendjoin:state",
-                     "Resolve:sendjoin:auth", "Resolve:load:all", "Resolve:authchain:all"}
-HeavyOps == {"VerifySignatures", "AuthCheck:event", "AuthCheck:provider", "AddToProvider"} \cup ResolveOps
+                     "Resolve:sendjoin:auth", "Resolve:load:all", "Resolve:authchain:all",
+                     "Resolve:new:dup", "Resolve:old:dup", "Resolve:checkstate:dup", "Resolve:sendjoin:dup", "Resolve:load:dup",
+                     "Resolve:new:bare", "Resolve:old:bare"}
+\* the federation handlers and PerformInvite, driven with the remote event of the pipeline
+HandlerOps == {"Handle:Invite", "Handle:InviteV3", "Handle:SendJoin", "Handle:MakeJoin", "Handle:MakeLeave", "Perform:Invite"}
+HeavyBase == {"VerifySignatures", "AuthCheck:event", "AuthCheck:provider", "AddToProvider"} \cup ResolveOps \cup HandlerOps
+\* What the application's callbacks answer while an operation runs (all within their contracts): the
+\* UserIDForSender querier knows nobody (nil, nil) / fails, the verifier fails, event and state providers fail /
+\* return nothing, every event is reported rejected.
+Envs == {"qnil", "qerr", "verr", "perr", "pnil", "rejall"}
+InEnv(op, e) == op \o "@" \o e
+EnvBase == {"VerifySignatures", "AuthCheck:event", "AuthCheck:provider", "AddToProvider", "Resolve:new:both", "Resolve:direct:both",
+            "Resolve:checkstate:state", "Resolve:sendjoin:auth", "Resolve:load:all", "Resolve:authchain:all", "Resolve:new:bare"}
+              \cup HandlerOps
+EnvOps == {InEnv(op, e) : op \in EnvBase, e \in Envs}
+HeavyOps == HeavyBase \cup EnvOps
 HeavyLite == {"VerifySignatures", "AuthCheck:event", "AuthCheck:provider", "Resolve:new:both", "Resolve:topo_auth:all",
               "Resolve:checkstate:state"}
 
 Acc(a) == "Accessor:" \o a
 Hlp(h) == "Helper:" \o h
 ParsedOps == {Acc(a) : a \in Accessors} \cup {Hlp(h) : h \in Helpers} \cup Mutators \cup HeavyOps
+HeavyWithError == {"VerifySignatures", "AuthCheck:event", "AuthCheck:provider", "AddToProvider"} \cup ResolveWithError \cup HandlerOps
 ParsedOpsWithError == {Acc(a) : a \in AccessorsWithError} \cup {Hlp(h) : h \in HelpersWithError} \cup MutatorsWithError
-                         \cup {"VerifySignatures", "AuthCheck:event", "AuthCheck:provider", "AddToProvider"} \cup ResolveWithError
+                         \cup HeavyWithError \cup {InEnv(op, e) : op \in EnvBase \cap HeavyWithError, e \in Envs}
 
 DecodeTargets == {"RespState", "RespStateIDs", "RespSendJoin", "RespMakeJoin", "RespMakeLeave", "RespMakeKnock", "RespSendKnock",
                   "RespPeek", "RespMissingEvents", "RespEventAuth", "RespInvite", "RespInviteV2", "InviteV2Request",
@@ -225,8 +290,11 @@ IdentOps == {"ParseIdentifier:NewRoomID", "ParseIdentifier:NewUserID", "ParseIde
 JsonOps == {"Canonicalise:CanonicalJSON", "Canonicalise:Enforced", "RedactJSON", "VerifyJSON", "SignJSON", "ListKeyIDs"}
 KeyOps == {"CheckKeys", "KeyRing"}
 HeaderOps == {"ParseAuthorization", "VerifyHTTPRequest"}
-BodyOps == {"Body:CheckStateResponse", "Body:SendJoin", "Body:Transaction", "Body:PerformJoin", "Body:LoadAndVerify"}
-RawOps == {"Parse:untrusted", "HTTPRequest"} \cup IdentOps \cup JsonOps \cup KeyOps \cup HeaderOps \cup BodyOps
+BodyOps == {"Body:CheckStateResponse", "Body:SendJoin", "Body:Transaction", "Body:PerformJoin", "Body:LoadAndVerify",
+            "Handle:InviteV3"}    \* the v3 invite handler takes the (looser) proto event of the request body
+\* the constructors of a typed event: the untrusted parser, and its siblings for bytes the untrusted parser accepted
+ParseOps == {"Parse:untrusted", "Parse:trusted", "Parse:headered"}
+RawOps == ParseOps \cup {"HTTPRequest"} \cup IdentOps \cup JsonOps \cup KeyOps \cup HeaderOps \cup BodyOps
              \cup {Dec(t) : t \in DecodeTargets}
 RawOpsNoError == {"ParseAuthorization", "ParseIdentifier:SenderID"}
 
@@ -245,6 +313,7 @@ Needs(op) == IF op \in RawOps THEN "raw" ELSE "parsed"
 \* ------------------------------------------------------------------------
 ParsedCallsWithError ==
     {Acc(a) : a \in AccessorsWithError} \cup {Hlp(h) : h \in HelpersWithError} \cup MutatorsWithError
+      \cup HandlerOps
       \cup {"VerifySignatures", "AddToProvider:NewAuthEvents", "AddToProvider:CreateContent", "AddToProvider:PowerLevelContent",
             "AddToProvider:JoinRuleContent", "AddToProvider:MemberContent", "AddToProvider:ThirdPartyInviteContent",
             "AddToProvider:AuthEventReferences", "AuthCheck:Allowed",
@@ -265,7 +334,7 @@ AfterCall(s, c, outcome) ==
     IF s = "bad" \/ c \notin Calls THEN "bad"
     ELSE IF outcome \notin CallOutcomes(c) THEN "bad"           \* in particular: a panic
     ELSE IF CallNeeds(c) # s THEN "bad"                         \* nothing runs on a datum that is not there
-    ELSE IF c = "Parse:untrusted" THEN (IF outcome = "ok" THEN "parsed" ELSE "error")
+    ELSE IF c \in ParseOps THEN (IF outcome = "ok" THEN "parsed" ELSE "error")
     ELSE s
 
 \* ------------------------------------------------------------------------
@@ -278,17 +347,17 @@ vars == <<st, subject, hist>>
 
 Step(op) == [op |-> op, outs |-> Outcomes(op)]
 
-\* a Raw entry point that yields a typed value: NewEventFromUntrustedJSON
-Parse(outcome) ==
-    /\ st = "raw"
-    /\ outcome \in Outcomes("Parse:untrusted")
+\* a Raw entry point that yields a typed value: NewEventFromUntrustedJSON and its siblings
+Parse(entry, outcome) ==
+    /\ st = "raw" /\ entry \in ParseOps
+    /\ outcome \in Outcomes(entry)
     /\ st' = IF outcome = "ok" THEN "parsed" ELSE "error"
-    /\ hist' = Append(hist, [op |-> "Parse:untrusted", outs |-> {outcome}])
+    /\ hist' = Append(hist, [op |-> entry, outs |-> {outcome}])
     /\ UNCHANGED subject
 
 \* every other Raw entry point answers and leaves nothing behind
 RawCall(op) ==
-    /\ st = "raw" /\ op \in RawOps \ {"Parse:untrusted"}
+    /\ st = "raw" /\ op \in RawOps \ ParseOps
     /\ hist' = Append(hist, Step(op))
     /\ UNCHANGED <<st, subject>>
 
@@ -307,7 +376,7 @@ NoPanic == \A i \in 1..Len(hist) : hist[i].outs \subseteq {"ok", "error"} /\ his
 \* an operation only ever ran on a datum in the state it needs; nothing follows a failed parse
 WellOrdered ==
     /\ \A i \in 1..Len(hist) : Needs(hist[i].op) = "parsed" =>
-           \E j \in 1..(i - 1) : hist[j].op = "Parse:untrusted" /\ hist[j].outs = {"ok"}
-    /\ st = "error" => hist[Len(hist)].op = "Parse:untrusted" /\ hist[Len(hist)].outs = {"error"}
+           \E j \in 1..(i - 1) : hist[j].op \in ParseOps /\ hist[j].outs = {"ok"}
+    /\ st = "error" => hist[Len(hist)].op \in ParseOps /\ hist[Len(hist)].outs = {"error"}
 TypeOK == st \in {"raw", "parsed", "error"} /\ \A i \in 1..Len(hist) : hist[i].op \in Ops
 =============================================================================
